@@ -82,11 +82,12 @@ def run(ctx):
             evals += 1
             n = int(n)
             want = "ok" if n < (1 << 24) else "err"
-            if cls != want:
-                C.violation(ctx, "bytes-length:%d" % n,
-                            "byte string of %d bytes: the format %s it, implementation: %s (header %s)"
-                            % (n, "carries" if want == "ok" else "cannot carry", cls, hdr),
-                            {"kind": "B", "length": n, "expected": want, "got": cls, "header": hdr})
+            whdr = "fe" + n.to_bytes(3, "little").hex() if want == "ok" else "-"
+            if cls != want or (want == "ok" and hdr != whdr):
+                C.violation(ctx, "bytes-length:t%s:%d" % (tid, n),
+                            "string/bytes field of %d bytes (type %s): the format %s it (length header %s), implementation: %s (header %s)"
+                            % (n, tid, "carries" if want == "ok" else "cannot carry", whdr, cls, hdr),
+                            {"kind": "B", "type": tid, "length": n, "expected": want, "expected_header": whdr, "got": cls, "header": hdr})
     if not samples:
         samples.append({"note": "no sample selected"})
     cov = C.proof_coverage(
